@@ -35,6 +35,9 @@
     releases; `unlock` by anyone else is undefined behaviour of the primitive (`Out.ub`).  `with (x in m)` is
     `start_in(m)` … `stop_in(m)` = `Mutex_Lock` … `Mutex_Unlock` through the `Start` instance of `Mutex`: same events.
     The translation of primitive error codes into exceptions (`lockTr`, `trylockTr`, `unlockTr`, `joinTr`) is as coded.
+  * a Thread object whose run has been joined may be called again (`spawn` of a `done`, joined thread): a new pthread
+    with the same `struct Thread`; its thread-local table, ledger and published cell persist, the collector and the
+    exception record are created afresh by the prologue.
   * `join u` (Thread_Join → pthread_join) is enabled only when `u` has finished `Thread_Init_Run` (phase `done`).
     A Thread object that was never called has `thread == 0`: Thread_Join returns at once (`Out.nothread`).
 
@@ -73,7 +76,7 @@ def GC.sweep (g : GC) (marked : List Obj) : GC × List Obj :=
    (g.reg.filter (fun e => !(e.2 || marked.contains e.1))).map (·.1))
 
 inductive Phase where
-  | unborn     -- Thread object exists, `call` not yet made
+  | unborn     -- Thread object exists, `call` not yet made (a joined Thread object may be called again: done → ready)
   | ready      -- `Thread_Call` done (pthread created), `Thread_Init_Run` prologue not yet observed
   | running    -- between prologue and epilogue of `Thread_Init_Run` (the main thread: always)
   | done       -- `Thread_Init_Run` has returned
@@ -356,6 +359,10 @@ def step (cfg : Cfg) (g : G) : Ev → G × Out
     if !running g t then (g, .dead)
     else if (g.thr u).phase = .unborn then
       ({ g with thr := upd g.thr u { g.thr u with phase := .ready } }, .spawned)
+    else if (g.thr u).phase = .done ∧ g.joined u = true then
+      -- the Thread object is called again after its previous run was joined: a new pthread (`t->thread` is
+      -- overwritten), the same `struct Thread` and so the same thread-local table
+      ({ g with thr := upd g.thr u { g.thr u with phase := .ready }, joined := upd g.joined u false }, .spawned)
     else (g, .bad)
   | .join t u =>
     if !running g t then (g, .dead)
@@ -421,7 +428,7 @@ def solo (cfg : Cfg) (u : Tid) : List Act → Cache → TS → TS × List Out
     let (ts2, outs) := solo cfg u as c1 ts1
     (ts2, out :: outs)
   | .born :: as, c, ts =>
-    solo cfg u as c (if ts.phase = .unborn then { ts with phase := .ready } else ts)
+    solo cfg u as c (if ts.phase = .unborn ∨ ts.phase = .done then { ts with phase := .ready } else ts)
 
 /-- the outputs of thread `u`'s local operations in a trace -/
 def localOuts (u : Tid) : List (Ev × Out) → List Out
